@@ -3,7 +3,7 @@ __email__ = "trungdong@donggiang.com"
 
 import io
 
-from prov.serializers import Serializer
+from prov.serializers import Serializer, is_text_stream
 
 
 class ProvNSerializer(Serializer):
@@ -17,7 +17,7 @@ class ProvNSerializer(Serializer):
         :param stream: Where to save the output.
         """
         provn_content = self.document.get_provn()
-        if not isinstance(stream, io.TextIOBase):
+        if not is_text_stream(stream):
             provn_content = provn_content.encode("utf-8")
         stream.write(provn_content)
 
